@@ -905,6 +905,7 @@ class _Sc:
         self.in_call_body = False  # directly in a <%call> body (under control lines): defs here are exported into
                                    # `ccall` next to body(), they are no closures of the body
         self.call_body_loop = False  # … and a `% for` of that body encloses this point
+        self.no_loop_all = False  # inside a <%def> / <%block> written beside body() of a <%call> (F-C03-11): no `loop`
         self.no_parent = False    # inside the `% else:` of a `% for`: what `loop.parent` of a loop there is, is left open
         self.unsized_chain = False  # some loop `loop.parent…` can reach iterates one (bool() of it calls len())
         self.buffering = False
@@ -1131,6 +1132,8 @@ class Gen:
         if k == "block":
             fl = FL(buffered=r.random() < 0.3, filters=[r.randrange(6)] if r.random() < 0.3 else [])
             s2 = sc.sub(depth=d, in_loop=False, loop=None, nested_for=False, top=False, in_block=True,
+                        no_loop_all=sc.no_loop_all or (sc.in_call_body and sc.call_body_loop
+                                                       and not self.k.loop_in_call_body_def),
                         in_call_body=False, call_body_loop=False,
                         buffering=fl["buffered"] or bool(fl["filters"]))
             s2.vars = [v for v in sc.vars if v in self._param_vars]
@@ -1146,8 +1149,9 @@ class Gen:
         if kind == "str":
             it = ["str", "".join(r.choice("pqr789") for _ in range(n))]
         else:
-            it = [kind, [self.expr(sc, 1, loop_ok=r.random() < 0.3 and not sc.no_loopctx) for _ in range(n)]]
-        use_loop = r.random() < self.k.p_loop_use and self.k.enable_loop and not sc.no_loopctx
+            it = [kind, [self.expr(sc, 1, loop_ok=r.random() < 0.3 and not sc.no_loopctx and not sc.no_loop_all)
+                         for _ in range(n)]]
+        use_loop = r.random() < self.k.p_loop_use and self.k.enable_loop and not sc.no_loopctx and not sc.no_loop_all
         s2 = sc.sub(depth=d, in_loop=True, loop="direct" if (use_loop or sc.loop == "direct") else sc.loop,
                     nested_for=(sc.loop == "direct"), unsized=kind in ("gen", "iter"),
                     call_body_loop=sc.in_call_body or sc.call_body_loop,
@@ -1155,7 +1159,7 @@ class Gen:
         if not use_loop and sc.loop:
             # `loop` inside this body would denote this loop: LoopVariable then mangles it
             s2.loop = "direct"
-        if not self.k.enable_loop or sc.no_loopctx:
+        if not self.k.enable_loop or sc.no_loopctx or sc.no_loop_all:
             s2.loop = None
         hide = bool(s2.loop) and r.random() < self.k.hide_direct_loop
         if hide:
@@ -1220,12 +1224,14 @@ class Gen:
         params = [self.fresh_var() for _ in range(r.choice([0, 0, 1, 1, 2]))]
         fl = FL(buffered=r.random() < self.k.p_def_flag, filters=[r.randrange(6)] if r.random() < self.k.p_def_flag else [])
         closure_loop = sc.loop if not sc.top else None
-        if sc.in_call_body and sc.call_body_loop and not self.k.loop_in_call_body_def:
+        beside = sc.in_call_body and sc.call_body_loop and not self.k.loop_in_call_body_def
+        if beside:
             closure_loop = None       # recorded finding F-C03-11: such a def cannot see the loop of the call body
         reads, plain = self.closure_mode(closure_loop)
         s2 = sc.sub(depth=sc.depth + 1, in_def=True, in_loop=False, top=False, nested_for=False,
                     in_call_body=False, call_body_loop=False, loop_hidden=False,
                     loop=("closure" if reads else None), no_loopctx=plain,
+                    no_loop_all=sc.no_loop_all or beside,
                     buffering=fl["buffered"] or bool(fl["filters"]))
         s2.vars = [v for v in sc.vars if v in self._param_vars] + params
         self._param_vars.update(params)
